@@ -57,6 +57,15 @@ int main(int argc, char** argv) {
   variants.push_back({"map_sptr" C12_SUFFIX, true, replay_map<SharedKey, int64_t>, 2, 3});
 #endif
 
+  // large-population histories (mode 2) on the key types whose key number may be any unsigned (the std::string keys grow with their
+  // number, the shared_ptr keys live in a table of 200)
+  for (Variant& v : variants) {
+    if (v.name == "set_int" C12_SUFFIX) v.bulk = replay_bulk<SetProbe<int64_t>, int64_t, int64_t, false>;
+    else if (v.name == "set_path" C12_SUFFIX) v.bulk = replay_bulk<SetProbe<PathKey>, PathKey, std::string, false>;
+    else if (v.name == "map_int" C12_SUFFIX) v.bulk = replay_bulk<MapProbe<int64_t, int64_t>, int64_t, int64_t, true>;
+    else if (v.name == "map_path" C12_SUFFIX) v.bulk = replay_bulk<MapProbe<PathKey, std::string>, PathKey, std::string, true>;
+  }
+
   bool thorough = false;
   for (int i = 1; i + 1 < argc; i++)
     if (std::string(argv[i]) == "--tier") thorough = std::string(argv[i + 1]) == "thorough";
@@ -111,6 +120,7 @@ int main(int argc, char** argv) {
           enumerate_alphabet(e, v, kGated, big_alpha, pl.big_full, false, block);
           enumerate_alphabet(e, v, kGated, big_alpha, pl.big_pruned, true, block);
         }
+        enumerate_bulk(e, v, block);
         auto al = make_alphabets(kGated);
         const Alphabet& ca = al[v.core_alpha];
         const Alphabet& xa = al[v.ext_alpha];
@@ -121,7 +131,8 @@ int main(int argc, char** argv) {
         e.complete(cat("every history of length 1..", pl.core_full, " over the ", ca.shapes.size(), " operation shapes of alphabet '", ca.name, "' and 1..", pl.ext_full, " over the ",
             xa.shapes.size(), " shapes of '", xa.name, "'; every history of length 1..", pl.core_pruned, " ('", ca.name, "') and 1..", pl.ext_pruned, " ('", xa.name,
             "') except those with a throwing no-op (absent-key touch/change_size/lookup, evict on empty) before the last operation, which are state-equivalent to a shorter enumerated history "
-            "(3 keys, sizes {0,1,2}, a second instance reachable through swap)", big));
+            "(3 keys, sizes {0,1,2}, a second instance reachable through swap)", big,
+            "; large-population histories (N keys built up, drained by evict_object to a rest, every eviction and peek compared): N = 2600, 5400, 11000", e.thorough() ? ", 2358, 7000, 16000" : ""));
       };
     }
     checks.push_back(sc);
